@@ -72,7 +72,7 @@ func VH_C14_Chunks() {
 // must return the whole message.
 func VH_C14_RecvDeadline() {
 	l := vIntRange("len", 2, vParam("maxlen", 4))
-	gap := vIntRange("gap_ms", 1, 3)     // producer pause between chunks
+	gap := vIntRange("gap_ms", 1, 3)      // producer pause between chunks
 	tout := vIntRange("timeout_ms", 1, 4) // receive timeout
 	_, b, ch := vPipe(1)
 	data := vBytes("d", l)
